@@ -3,4 +3,5 @@
 HERE="$(cd "$(dirname "$0")" && pwd)"
 cd "$HERE" || exit 2
 PYTHONPATH="$HERE" /venv/bin/python -W ignore -m harness.effects_scan --emit >/dev/null 2>&1
+PYTHONPATH="$HERE" /venv/bin/python -W ignore -m harness.lexer_extract >/dev/null 2>&1
 cd lean && lake build
